@@ -191,7 +191,12 @@ def gen(rng, kind, tier):
         spec = _rand_grid(rng, dim, tier)
         d = _rand_droplet(rng, spec)
         vmin, vmax = _levels(rng)
-        return {"grid": spec, "droplet": d, "vmin": vmin, "vmax": vmax, "route": common.pick_route(rng, 0.7)}
+        case = {"grid": spec, "droplet": d, "vmin": vmin, "vmax": vmax, "route": common.pick_route(rng, 0.7)}
+        if spec["family"] in ("cart", "cyl") and rng.random() < 0.2:
+            # the same droplet is first drawn (not judged) on a grid of the same shape and bounds whose axes are
+            # periodic where this one's are not, or the other way round: earlier calls must not influence later ones
+            case["sibling_first"] = True
+        return case
     if kind == "roll":
         dim = int(rng.choice([1, 2, 2, 3]))
         nmax = {1: 24, 2: 12, 3: 7}[dim]
@@ -337,6 +342,15 @@ def run(case, rec):
         if not drop.ok:
             rec.harness_error(f"cannot construct {d}: {drop.exc!r}")
             return
+        if case.get("sibling_first"):
+            sib = dict(spec)
+            if spec["family"] == "cart":
+                sib["periodic"] = [not p for p in spec["periodic"]]
+            else:
+                sib["periodic_z"] = not spec["periodic_z"]
+            common.monitored(rec, "get_phase_field:sibling-grid", drop.result.copy().get_phase_field, geom.make_grid(sib),
+                             vmin=vmin, vmax=vmax)  # not judged
+            rec.count("preceded_by_a_render_on_a_grid_with_other_periodicity")
         call = common.monitored(rec, "get_phase_field", drop.result.get_phase_field, grid,
                                 vmin=vmin, vmax=vmax)
         if not rec.check(call.ok, "no-exception",
